@@ -43,6 +43,27 @@ SEEDS = {
  'C19-vd-offset-clamp': ('C19/2', 'C19', 'zone more than 13 hours east of GMT (17-byte dates only)', ['C19']),
  'C20-dup-hash-cache': ('C20/1', 'C20', '-scan-for-duplicates with three equal-size files: first differs, second and third identical, breadth-first order', ['C20']),
  'C20-symlink-component-continue': ('C20/2', 'C20', 'Rock Ridge symlink whose SL record fills up exactly between two path components (first component 125..129 bytes)', ['C20', 'C08']),
+ # ---- round 2: written against the repaired tree
+ 'C01-r2-dirwriter-ge-exact-fit': (None, 'C01', 'a directory whose records fill a sector exactly (ISO9660: 45 entries with 11-byte identifiers; Joliet: 18 names of 38 characters)', ['C01', 'C03', 'C04']),
+ 'C01-r2-relayout-early-exit-index': (None, 'C01', 'a directory spanning two extents, an add that lands in the slack of the first block, then a removal in the second block', ['C01']),
+ 'C02-r2-ce-gap-inclusive-end': (None, 'C02', 'three records with continuation entries in one block, the middle one removed, write + reopen (the hole only exists after a parse), then an add whose continuation entry is one byte larger than the hole', ['C02', 'C08', 'C04']),
+ 'C02-r2-relayout-early-exit-index': (None, 'C02', 'multi-extent directory with records of different lengths; add/remove in an earlier extent absorbed at the boundary; then removal of a child beyond it in the same session', ['C02', 'C01']),
+ 'C04-r2-ce-gap-inclusive-end': (None, 'C04', 'as C02-r2-ce-gap-inclusive-end without the reopen (rm_directory frees the entry in memory)', ['C04', 'C08']),
+ 'C04-r2-dirwriter-ge-exact-fit': (None, 'C04', 'as C01-r2-dirwriter-ge-exact-fit (independently written)', ['C04', 'C03']),
+ 'C06-r2-set-inode-skip-unmoved': (None, 'C06', 'two recomputations with a new record linked to an existing inode in between, the inode keeping its extent (second add_eltorito section on the same boot file; add_hard_link in always-consistent mode)', ['C06']),
+ 'C06-r2-rr-cache-not-cleared': (None, 'C06', 'a query by rr_path before a removal, the same name added again with another length, then force_consistency and a query by rr_path', ['C06']),
+ 'C07-r2-unlink-by-equality': (None, 'C07', 'the same identifier linked in two directories of one namespace (equal recording dates), the later-created link removed first', ['C07']),
+ 'C07-r2-udf-link-count-after-reopen': (None, 'C07', 'a UDF hard link created before a reopen, then an edit that moves the File Entries', ['C07', 'C02', 'C10']),
+ 'C10-r2-udf-dir-three-sectors': (None, 'C10', 'a UDF directory with more than 4096 bytes of file identifiers', ['C10']),
+ 'C10-r2-udf-cache-survives-close': (None, 'C10', 're-use of the same PyCdlib object after close() with an edit below a UDF path looked up before the close', ['C02', 'C10']),
+ 'C11-r2-section-no-reshuffle': (None, 'C11', 'lazy mode, a second add_eltorito on a clean layout (right after open / write / force_consistency), no other edit before the write', ['C11', 'C06']),
+ 'C11-r2-hidden-bit-not-recognised': (None, 'C11', 'boot info table on a boot file whose ISO9660 name was removed, write, reopen, an edit that moves the boot file, write', ['C11']),
+ 'C14-r2-udf-link-count-residue': (None, 'C14', 'add_hard_link(udf_new_path=<taken name>) refused, then a later edit of the same file', ['C14']),
+ 'C14-r2-default-bootcat-late': (None, 'C14', 'a /boot.cat already present in Joliet or UDF and add_eltorito relying on the default catalog names', ['C14']),
+ 'C16-r2-relative-seek-shared-position': (None, 'C16', 'seek(n, 1) after anything else moved the backing file (second stream, extraction, write)', ['C16']),
+ 'C16-r2-joliet-cache-survives-rm': (None, 'C16', 'a lookup by joliet_path, removal of the file, then a read of that name (or of the re-added name) by joliet_path', ['C16', 'C07']),
+ 'C17-r2-zero-pad-full-sector': (None, 'C17', 'new length a non-zero multiple of 2048 with something directly behind the file', ['C17']),
+ 'C17-r2-boundary-ge-offsets': (None, 'C17', 'a multi-sector directory whose records fill a sector exactly; the target is the boundary record or a later one', ['C17']),
 }
 only = sys.argv[1:]
 if only == ['--collect']:
@@ -51,11 +72,11 @@ out = {}
 for sid, (inc, prop, needs, checks) in sorted(SEEDS.items()):
     if only and sid not in only:
         continue
-    src = os.path.join(HERE, 'seeded', '_incoming', inc)
+    src = os.path.join(HERE, 'seeded', '_incoming', inc or 'none')
     dst = os.path.join(HERE, 'seeded', sid)
     os.makedirs(dst, exist_ok=True)
     for f in ('patch.diff', 'demo.py', 'notes.md'):
-        if os.path.exists(os.path.join(src, f)):
+        if inc is not None and os.path.exists(os.path.join(src, f)):
             subprocess.run(['cp', os.path.join(src, f), os.path.join(dst, f)], check=True)
     res = {}
     for c in checks:
